@@ -130,6 +130,16 @@ func (r *run) assume(guard, fact *smt.Term) {
 	if fact.IsTrue() {
 		return
 	}
+	if smt.HasQuantifier(fact) {
+		// quantified facts are asserted conjunct by conjunct with nested quantifiers pulled out (prenex):
+		// every part then has a trigger that mentions all of its bound variables
+		if parts := splitQuantGoal(r.C(), fact, 24); len(parts) > 1 {
+			for _, p := range parts {
+				r.assume(guard, p)
+			}
+			return
+		}
+	}
 	f := r.C().Implies(guard, fact)
 	r.facts = append(r.facts, f)
 	if guard.IsTrue() && r.dry == 0 {
